@@ -62,18 +62,58 @@ func packResults(sig *types.Signature, rs []Val) Val {
 // execCall handles call instructions (value may be nil for deferred calls).
 func (u *Unit) execCall(st *State, fr *Frame, instr ssa.Instruction, cc *ssa.CallCommon, resv ssa.Value) bool {
 	var args []Val
+	type alias struct {
+		orig, copy Val
+		before     map[string]Term // heap versions of the snapshot's components right after the copy-in
+	}
+	var aliases []alias
 	for _, a := range cc.Args {
-		args = append(args, u.materialize(st, u.val(st, a)))
+		ov := u.val(st, a)
+		mv := u.materialize(st, ov)
+		if len(ov.Terms) == 1 && ov.Terms[0] == "?interior" && ov.Ptr != nil && mv.Ptr != nil && mv.Ptr.Kind == PObj {
+			al := alias{orig: ov, copy: mv, before: map[string]Term{}}
+			if locs, _ := u.locsOf(mv.Ptr); len(locs) > 0 {
+				for _, l := range locs {
+					al.before[l.comp] = u.heapGet(st, l.comp, l.arrSort)
+				}
+			}
+			aliases = append(aliases, al)
+		}
+		args = append(args, mv)
+	}
+	nframes := len(st.frames)
+	// copy-out: what the callee did to the snapshot of an interior location (a method called on
+	// an embedded struct field, &s.f passed down) is written back when the call has completed
+	copyOut := func(ok bool) bool {
+		if !ok || len(st.frames) != nframes || st.dead {
+			return ok
+		}
+		for _, al := range aliases {
+			changed := false
+			if locs, _ := u.locsOf(al.copy.Ptr); len(locs) > 0 {
+				for _, l := range locs {
+					if u.heapGet(st, l.comp, l.arrSort) != al.before[l.comp] {
+						changed = true
+					}
+				}
+			}
+			if !changed {
+				continue // the callee did not write any component of the snapshot
+			}
+			nv := u.load(st, al.copy, token.NoPos)
+			u.store(st, al.orig, nv, cc.Pos())
+		}
+		return ok
 	}
 	if cc.IsInvoke() {
 		recv := u.val(st, cc.Value)
-		return u.callInvoke(st, fr, instr, cc, recv, args, resv)
+		return copyOut(u.callInvoke(st, fr, instr, cc, recv, args, resv))
 	}
 	if b, ok := cc.Value.(*ssa.Builtin); ok {
 		return u.callBuiltin(st, fr, instr, b, cc, args, resv)
 	}
 	fv := u.val(st, cc.Value)
-	return u.callValue(st, fr, instr, fv, args, cc.Signature(), resv, cc.Pos())
+	return copyOut(u.callValue(st, fr, instr, fv, args, cc.Signature(), resv, cc.Pos()))
 }
 
 func (u *Unit) callValue(st *State, fr *Frame, instr ssa.Instruction, fv Val, args []Val, sig *types.Signature, resv ssa.Value, pos token.Pos) bool {
